@@ -112,6 +112,14 @@ def _impl(tier, seed, search):
                 nv = float(np.linalg.norm(x[1]))
                 L.close(f'{cname}.angvec-roundtrip', inputs.rodrigues(x[1] / nv, x[0]) if nv > 0 else np.eye(3), Ra, TOL, 1.0, inpa)
                 L.check(f'{cname}.angvec-range', -1e-12 <= float(x[0]) <= PI + 1e-9, inpa, f'{cname}.angvec(): rotation angle outside [0, pi]', observed=float(x[0]), sig=f'{cname}.angvec-range')
+        # angle * axis as a rotation vector rebuilds the rotation in every class — the zero rotation included (axis may be anything then)
+        for Rz_ in (Ra, np.eye(3)):
+            ok, x = L.noraise('angvec->EulerVec', lambda: (lambda tv: (SO3.EulerVec(tv[0] * np.asarray(tv[1], float)).A, SE3.EulerVec(tv[0] * np.asarray(tv[1], float)).A[:3, :3], UnitQuaternion.EulerVec(tv[0] * np.asarray(tv[1], float)).R))(SO3(Rz_, check=False).angvec()),
+                              dict(R=Rz_), 'EulerVec(theta * v) with (theta, v) = angvec()', sig='angvec->EulerVec:raises')
+            if ok:
+                for nm_, M_ in zip(('SO3', 'SE3', 'UQ'), x):
+                    L.check(f'{nm_}.EulerVec(angvec):finite', bool(np.all(np.isfinite(np.asarray(M_, float)))), dict(R=Rz_), f'{nm_}.EulerVec(theta * v) is not finite', sig='angvec->EulerVec')
+                    if np.all(np.isfinite(np.asarray(M_, float))): L.close(f'{nm_}.EulerVec(angvec)', M_, Rz_, TOL, 1.0, dict(R=Rz_), sig='angvec->EulerVec')
         # both quaternions of the rotation (q and -q) must give an angle in [0, pi] and the same rotation
         qa = b.r2q(Ra)
         for sgn in (1.0, -1.0):
@@ -148,6 +156,14 @@ def _impl(tier, seed, search):
         if ok:
             L.close('xyt-roundtrip(deg)', b.xyt2tr(xd, unit='deg'), T2, TOL, max(1.0, float(np.max(np.abs(xyt[:2])))), dict(xyt=xyt), what="xyt2tr(tr2xyt(T, 'deg'), 'deg') does not reproduce T")
             L.close('xyt(deg):translation', np.asarray(xd, float)[:2], T2[:2, 2], 1e-12, max(1.0, float(np.max(np.abs(xyt[:2])))), dict(xyt=xyt), what="tr2xyt(unit='deg') changes the translation", sig='xyt-roundtrip(deg)')
+        # planar poses stored with integer entries (quarter turns, integer translations): the angle is not truncated
+        if i % 6 == 0:
+            for qk in (1, 2, 3, 0):
+                Ri = np.array([[0, -1], [1, 0]], dtype=int); Mi = np.eye(3, dtype=int); Mi[:2, :2] = np.linalg.matrix_power(Ri, qk); Mi[:2, 2] = g.integers(-5, 6, size=2)
+                ok, xi = L.noraise('SE2(int).xyt', lambda: (np.asarray(SE2(Mi).xyt(), float), np.asarray(b.tr2xyt(Mi), float)), dict(T=Mi), 'xyt of an integer-valued planar pose')
+                if ok:
+                    for nm_, v_ in (('SE2.xyt', xi[0]), ('tr2xyt', xi[1])):
+                        L.close(f'{nm_}(int)-roundtrip', b.xyt2tr(v_), Mi.astype(float), TOL, max(1.0, float(np.max(np.abs(Mi[:2, 2])))), dict(T=Mi), what=f'{nm_} of an integer-valued pose does not rebuild the pose', sig='xyt:int')
         ok, x = L.noraise('SE2.xyt', lambda: SE2(T2, check=False).xyt(), dict(T=T2), 'SE2.xyt()')
         if ok: L.close('SE2.xyt-roundtrip', b.xyt2tr(x), T2, TOL, max(1.0, float(np.max(np.abs(xyt[:2])))), dict(xyt=xyt))
         ok, x = L.noraise('SO2.theta', lambda: (SO2(T2[:2, :2], check=False).theta(), SO2(T2[:2, :2], check=False).theta(unit='deg')), dict(T=T2), 'SO2.theta()')
